@@ -27,7 +27,7 @@ func init() {
 				"evalPipeCallExpression, and a jet.Func receives args and piped value unchanged; (C14.once) a pipeline evaluates Cmds[0] once and each later command once, in order, feeding the previous " +
 				"value; (C14.count) evaluateArgs compares the argument count with NumIn (!=, or < for variadics) before evaluating any argument, and every reflect Convert there is guarded by " +
 				"ConvertibleTo with an error return; (C14.table) each built-in documented in docs/builtins.md as exposing a Go function is bound to exactly that function; slice and array share one " +
-				"implementation; len, isset, ints, map, exec, includeIfExists, dump, writeJson exist. (C14.count, continued) a conversion target taken from fnType.In(k) is used only where k is known to be a fixed position or Elem() was applied (a value piped into a purely variadic function is converted to the element type).",
+				"implementation; len, isset, ints, map, exec, includeIfExists, dump, writeJson exist. (C14.count, continued) a conversion target taken from fnType.In(k) is used only where k is known to be a fixed position or Elem() was applied (a value piped into a purely variadic function is converted to the element type). (C14.once, continued) on a normally returning path a built-in fetches Arguments.Get(i) at most once per position (each Get evaluates the argument expression).",
 			NotDecided:  "the result of reflect.Value.Call; variadic packing by reflect; conversion results; what the Go functions compute (stdlib).",
 			Assumptions: []string{"docs/builtins.md is the documentation the property refers to (a built-in copy of its table is used when the file cannot be parsed)"},
 			Trusted:     commonTrusted,
